@@ -119,6 +119,7 @@ class Link(ElementWithVars[VarType]):
             )
             for name in ("rho", "v")
         }
+        self.next_states = None  # any earlier step refers to the old variables
 
         if positive_init_density:
             self.states["rho"] = engine.max(0, self.states["rho"])
